@@ -51,4 +51,16 @@ def nnps_sum(a, b, k):
             requires=["n >= 0", "forall(i, 0, n, p[i] != q[i])"], ensures=["mcount(p, n) + mcount(q, n) == n"], induct=("n", "0"))
     R.lemma("mcount_pos", params={"p": "List[Bool]", "n": "Int", "k": "Int"}, requires=["0 <= k", "k < n", "p[k]"],
             ensures=["mcount(p, n) >= 1"], induct=("n", "k + 1"), use=["mcount_range(p, k)"])
+    # C18: counts of rows satisfying a predicate (histogram bins, kdq-tree cells) do not depend on the row order --
+    # changing one entry changes the count by the difference of the indicators, hence exchanging two rows changes nothing;
+    # every permutation is a product of such exchanges
+    R.lemma("mcount_store", params={"p": "List[Bool]", "n": "Int", "i": "Int", "v": "Bool"}, requires=["0 <= i", "i < n"],
+            ensures=["mcount(store(p, i, v), n) == mcount(p, n) - (1 if p[i] else 0) + (1 if v else 0)"], induct=("n", "i + 1"),
+            use=["mcount_frame(p, i, i, v)"])
+    R.lemma("mcount_frame", params={"p": "List[Bool]", "n": "Int", "i": "Int", "v": "Bool"}, requires=["0 <= n", "n <= i"],
+            ensures=["mcount(store(p, i, v), n) == mcount(p, n)"], induct=("n", "0"))
+    R.lemma("mcount_swap", params={"p": "List[Bool]", "n": "Int", "i": "Int", "j": "Int"},
+            requires=["0 <= i", "i < n", "0 <= j", "j < n", "i != j"],
+            ensures=["mcount(store(store(p, i, p[j]), j, p[i]), n) == mcount(p, n)"],
+            use=["mcount_store(p, n, i, p[j])", "mcount_store(store(p, i, p[j]), n, j, p[i])"])
 
